@@ -9,7 +9,7 @@
 From Coq Require Import List ZArith Permutation.
 From TskVerif Require Import Base.Common C15.Combination C15.Partitions C15.RankTree
   C15.TopoSpec C15.CombProofs C15.CombRankProofs C15.WRProofs C15.RankTreeBounded
-  C15.PartitionProofs C15.OorProofs C15.ChildOrderProofs.
+  C15.PartitionProofs C15.OorProofs C15.ChildOrderProofs C15.LabelOorProofs C15.RuleAscProofs C15.NumShapesTotal.
 Import ListNotations.
 Open Scope Z_scope.
 
@@ -79,9 +79,17 @@ Theorem wr_unrank_oor_refuted : mchoose 1 1 = 1%nat /\ with_replacement_unrank 5
 Proof. exact wr_unrank_oor_not_rejected. Qed.
 
 (* ---- (c) rule_asc / partitions ----
-   the specification list holds exactly the ascending compositions of n, each once
-   (unbounded); rule_asc equals it for 1 <= n <= 30 (bounded, by evaluation).
-   Unbounded statement (not proved): forall n >= 1, rule_asc n = Ok (asc_compositions n). *)
+   the specification list holds exactly the ascending compositions of n, each once; the
+   array loop of rule_asc returns exactly that list, without OOB / fuel exhaustion, for
+   EVERY n >= 1 (unbounded: rule_asc_complete).  The n <= 30 evaluation is kept as an
+   independent check. *)
+Theorem rule_asc_complete : forall n, 1 <= n -> rule_asc n = Ok (asc_compositions n).
+Proof. exact RuleAscProofs.rule_asc_complete. Qed.
+
+Theorem partitions_complete : forall n, 1 <= n ->
+  partitions n = Ok (removelast (asc_compositions n)).
+Proof. exact RuleAscProofs.partitions_complete. Qed.
+
 Theorem asc_compositions_are_all : forall n c, 1 <= n ->
   (In c (asc_compositions n) <-> (nondecr_from 1 c /\ zsum' c = n /\ c <> [])).
 Proof. exact asc_compositions_spec. Qed.
@@ -150,3 +158,21 @@ Proof. exact tree_unrank_shape_oor. Qed.
 
 Theorem unrank_negative_rejected : forall n s l, s < 0 \/ l < 0 -> tree_unrank n s l = Err E_RANK.
 Proof. exact tree_unrank_negative. Qed.
+
+(* for every n >= 2 an out-of-range label rank is rejected (unbounded): whenever the shape
+   of rank s exists and has N = sh_nlab labellings (= num_labellings n s), every l >= N fails *)
+Theorem unrank_oor_label_rejected : forall n s l sh,
+  2 <= n -> 0 <= s ->
+  shape_unrank (S (Z.to_nat n)) n s = Ok sh -> sh_nlab sh <= l ->
+  tree_unrank n s l = Err E_RANK.
+Proof. exact tree_unrank_label_oor. Qed.
+
+(* num_shapes is defined for every n, so the rejection of out-of-range shape ranks is
+   unconditional for every n >= 2 *)
+Theorem num_shapes_defined : forall n, exists v, num_shapes n = Ok v /\ (0 <= n -> 0 <= v).
+Proof. exact num_shapes_total. Qed.
+
+Theorem unrank_oor_shape_rejected_all : forall n, 2 <= n ->
+  exists nS, num_shapes n = Ok nS /\
+    forall s l, nS <= s -> 0 <= l -> tree_unrank n s l = Err E_RANK.
+Proof. exact unrank_oor_shape_rejected_total. Qed.
